@@ -1,5 +1,5 @@
 import RainModel.Model.Registry
-import RainModel.Lemmas.RegistryRestart
+import RainModel.Lemmas.RegistryDead
 import RainModel.Model.ResumeCodec
 import RainModel.Lemmas.ResumeCodec
 /-!
@@ -9,7 +9,15 @@ Property theorems only; the invariant and its preservation are in `Lemmas/Regist
 All theorems quantify over every configured range `[lo, hi)` and every finite history `ops` of the
 registry machine `Rain.Registry.step` started from a fresh session — including every failing add
 at each of its failure points (inputs `Env`, exhausted range, duplicate id, inadmissible choices)
-and, where stated, arbitrary interleavings of the steps of concurrent adds.
+and, where stated, arbitrary interleavings of the steps of concurrent adds.  Restarts take the set
+of records that fail to load as an input (`Op.reopen resume bad`: damaged info bytes, a bitfield of the
+wrong length, an info-hash that is not 20 bytes long, more pieces than `MaxPieces`, no storage).
+
+Hypothesis `tameRun`: the history is *tame* (`Registry.tame`, decidable, evaluated by the driver on
+every generated case): a record that failed to load does not load at a later restart, and no add uses
+an explicit id that is listed as invalid.  Outside these histories the code breaks the property
+(findings F07, F08: `reload_shares_port_counterexample`, `invalid_id_reuse_counterexample`).  A history
+in which no record ever fails to load is tame (`tame_of_no_dead`).
 -/
 namespace Rain.Props.C14
 open Rain.Registry
@@ -18,17 +26,19 @@ open Rain.Registry
 concurrent callers in any interleaving, failing steps, removes, restarts, compaction — the configured
 range is, as a multiset, exactly: free ports + ports of registered torrents + ports held by adds in
 flight.  The range has no duplicates, so the three parts are pairwise disjoint and no port is owned twice. -/
-theorem port_conservation (lo hi : Nat) (ops : List Op) :
+theorem port_conservation (lo hi : Nat) (ops : List Op) (ht : tameRun (init lo hi) ops = true) :
     let s := run (init lo hi) ops
     (s.free ++ s.reg.map (·.f.port) ++ s.pending.map (·.port)).Perm s.range :=
-  (inv_run ops (init_inv lo hi)).ports
+  (good_run ops (init_good lo hi) ht).1.ports
 
 /-- **port_conservation** for one caller at a time: after every sequential history the executable
 predicate the check evaluates on the implementation holds — the range is the disjoint union of the
 free ports and the ports of the live torrents. -/
-theorem port_conservation_sequential (lo hi : Nat) (ops : List Op) (hs : ∀ op ∈ ops, op.sequential = true) :
-    portConservation (observe (run (init lo hi) ops)) = true :=
-  portConservation_of_inv (inv_run ops (init_inv lo hi)) (run_pending_nil ops rfl hs)
+theorem port_conservation_sequential (lo hi : Nat) (ops : List Op) (ht : tameRun (init lo hi) ops = true)
+    (hs : ∀ op ∈ ops, op.sequential = true) :
+    portConservation (observe (run (init lo hi) ops)) = true ∧ lostPorts (observe (run (init lo hi) ops)) = [] := by
+  have h := portConservation_of_inv (good_run ops (init_good lo hi) ht).1 (run_pending_nil ops rfl hs)
+  exact ⟨h, lostPorts_nil_of_conservation h⟩
 
 /-- **failing_add_releases_port**: a failing add at any failure point — exhausted range, duplicate
 id, storage, newTorrent, resume write (inputs `Env`), inadmissible choice — from *any* state leaves the
@@ -56,51 +66,77 @@ example : [errOf (addSeq (init 10 11) mX oX 10 "g" { stoFail := true }).2,
 
 /-- **ids_unique** (all schedules): ids of live torrents are pairwise different and the info-hash index
 lists exactly the live torrents; moreover ids of registered torrents and of adds in flight never clash. -/
-theorem ids_unique (lo hi : Nat) (ops : List Op) :
+theorem ids_unique (lo hi : Nat) (ops : List Op) (ht : tameRun (init lo hi) ops = true) :
     let s := run (init lo hi) ops
     idsUnique (observe s) = true ∧ (s.regIds ++ s.pendIds).Nodup :=
-  ⟨idsUnique_of_inv (inv_run ops (init_inv lo hi)), (inv_run ops (init_inv lo hi)).ids⟩
+  ⟨idsUnique_of_inv (good_run ops (init_good lo hi) ht).1, (good_run ops (init_good lo hi) ht).1.ids⟩
 
-/-- **registry_eq_db** (all schedules): the ids in the resume database are exactly the ids of the
-registered torrents plus those of adds that have written their record but are not inserted yet, each
-once; and every registered torrent has a record that describes it. -/
-theorem registry_eq_db (lo hi : Nat) (ops : List Op) :
+/-- **registry_eq_db** (all schedules): the ids of the sub-buckets of the torrents bucket (`bucket =
+db ++ dead`) are exactly the ids of the registered torrents, plus those of adds that have written their
+record but are not inserted yet, plus the ids listed in `invalidTorrentIDs` (records that were read at
+the last start and did not load), each once; an invalid id is never the id of a registered torrent or
+of an add in flight; and every registered torrent has a record that describes it. -/
+theorem registry_eq_db (lo hi : Nat) (ops : List Op) (ht : tameRun (init lo hi) ops = true) :
     let s := run (init lo hi) ops
-    s.dbIds.Perm (s.regIds ++ ((s.pending.filter (fun q => q.stage == .written)).map (·.id))) ∧
-    ∀ t ∈ s.reg, ∃ r, dbGet s.db t.id = some r ∧ describes r t.f = true := by
+    (s.bucket.map (·.1)).Perm (s.regIds ++ ((s.pending.filter (fun q => q.stage == .written)).map (·.id)) ++ s.invalid) ∧
+    (s.bucket.map (·.1)).Nodup ∧
+    (∀ id ∈ s.invalid, id ∉ s.regIds ∧ id ∉ s.pendIds) ∧
+    ∀ t ∈ s.reg, ∃ r, dbGet s.bucket t.id = some r ∧ describes r t.f = true := by
   intro s
-  have h := inv_run ops (init_inv lo hi)
-  refine ⟨h.dbIds_perm, ?_⟩
-  intro t ht
-  obtain ⟨r, hr, hd⟩ := h.synced t ht
-  exact ⟨r, dbGet_of_mem h.dbIds_nodup hr, hd⟩
+  obtain ⟨h, hd⟩ := good_run ops (init_good lo hi) ht
+  refine ⟨?_, bucket_nodup h hd, hd.fresh, ?_⟩
+  · rw [State.bucket, List.map_append, hd.inv]
+    exact List.Perm.append h.dbIds_perm (List.Perm.refl _)
+  · intro t ht
+    obtain ⟨r, hr, hdesc⟩ := h.synced t ht
+    exact ⟨r, dbGet_append_left (dbGet_of_mem h.dbIds_nodup hr), hdesc⟩
 
 /-- **registry_eq_db** for one caller at a time, as the executable predicate. -/
-theorem registry_eq_db_sequential (lo hi : Nat) (ops : List Op) (hs : ∀ op ∈ ops, op.sequential = true) :
+theorem registry_eq_db_sequential (lo hi : Nat) (ops : List Op) (ht : tameRun (init lo hi) ops = true)
+    (hs : ∀ op ∈ ops, op.sequential = true) :
     registryEqDb (observe (run (init lo hi) ops)) = true :=
-  registryEqDb_of_inv (inv_run ops (init_inv lo hi)) (run_pending_nil ops rfl hs)
+  registryEqDb_of_inv (good_run ops (init_good lo hi) ht).1 (good_run ops (init_good lo hi) ht).2
+    (run_pending_nil ops rfl hs)
 
 /-- **restart_equiv**: closing the session reached by any history (with no add in flight) and opening
-a new one on the same database yields the same ids, and every torrent comes back with the same
-info-hash, name, port, trackers, web seeds, fixed peers, options and counters; its started flag is
-`ResumeOnStartup && <started flag of its record>`. -/
-theorem restart_equiv (lo hi : Nat) (ops : List Op) (resume : Bool)
+a new one on the same database, in which the records of the ids `bad` fail to load, yields the ids that
+are not in `bad`, and every such torrent comes back with the same info-hash, name, port, trackers, web
+seeds, fixed peers, options and counters; its started flag is `ResumeOnStartup && <started flag of its
+record>`.  A torrent whose record fails to load is not registered, its id is listed as invalid, its
+record is still in the database, and **its port is free**. -/
+theorem restart_equiv (lo hi : Nat) (ops : List Op) (resume : Bool) (bad : List String)
+    (ht : tameRun (init lo hi) (ops ++ [.reopen resume bad]) = true)
     (hq : (run (init lo hi) ops).pending = []) :
-    restartEquiv resume (observe (run (init lo hi) ops)) (observe (reopen (run (init lo hi) ops) resume)) = true :=
-  restartEquiv_of_inv (inv_run ops (init_inv lo hi)) hq resume
+    restartEquiv resume bad (observe (run (init lo hi) ops)) (observe (reopen (run (init lo hi) ops) resume bad)) = true := by
+  obtain ⟨ht1, ht2⟩ := tameRun_append ht
+  refine restartEquiv_of_inv (good_run ops (init_good lo hi) ht1).1 hq resume bad ?_
+  intro e he
+  simp only [tameRun, tame, Bool.and_true, List.all_eq_true] at ht2
+  simpa using ht2 e he
+
+/-- **failed_load_then_clean**: after any tame history, `CleanDatabase` succeeds, removes exactly
+the records that did not load, empties the invalid list and changes nothing else — afterwards the
+database holds exactly the registered torrents and the adds that have written. -/
+theorem failed_load_then_clean (lo hi : Nat) (ops : List Op) (ht : tameRun (init lo hi) ops = true) :
+    let s := run (init lo hi) ops
+    (clean s).2 = true ∧ (clean s).1.dead = [] ∧ (clean s).1.invalid = [] ∧ (clean s).1.db = s.db ∧
+    (clean s).1.free = s.free ∧ (clean s).1.reg = s.reg ∧ (clean s).1.idx = s.idx ∧ (clean s).1.pending = s.pending := by
+  intro s
+  obtain ⟨h, hd⟩ := good_run ops (init_good lo hi) ht
+  exact clean_spec h hd
 
 /-- **compact_equiv**: after any history `CompactDatabase` succeeds, and the database it writes holds
 exactly the torrents that have metadata, each record equal to the torrent's current record with the
 counters brought up to date; a session opened on it (`rain compact-database`) has exactly these
 torrents, with the fields they had. -/
-theorem compact_equiv (lo hi : Nat) (ops : List Op) :
+theorem compact_equiv (lo hi : Nat) (ops : List Op) (ht : tameRun (init lo hi) ops = true) :
     let s := run (init lo hi) ops
     ∃ c, compact s = some c ∧ compactEquiv (observe s) c = true ∧
       (s.pending = [] → ∀ resume,
-        restartEquiv resume { observe s with live := s.reg.filter (·.f.hasInfo), db := c }
+        restartEquiv resume [] { observe s with live := s.reg.filter (·.f.hasInfo), db := c }
           (observe (compactSwap s resume)) = true) := by
   intro s
-  have h := inv_run ops (init_inv lo hi)
+  have h := (good_run ops (init_good lo hi) ht).1
   obtain ⟨c, hc, he⟩ := compactEquiv_of_inv h
   refine ⟨c, hc, he, ?_⟩
   intro hp resume
@@ -110,9 +146,9 @@ theorem compact_equiv (lo hi : Nat) (ops : List Op) :
   exact hr
 
 /-- The periodic stats writer never dereferences a missing bucket. -/
-theorem updateStats_never_panics (lo hi : Nat) (ops : List Op) :
+theorem updateStats_never_panics (lo hi : Nat) (ops : List Op) (ht : tameRun (init lo hi) ops = true) :
     updateStatsPanics (run (init lo hi) ops) = false :=
-  updateStats_no_panic (inv_run ops (init_inv lo hi))
+  updateStats_no_panic (good_run ops (init_good lo hi) ht).1
 
 /-! ### Non-vacuity: a history with accepted adds, every kind of rejected add, a restart, a compaction -/
 
@@ -124,7 +160,7 @@ private def history : List Op :=
     .add mB ⟨none, true, false, false, true⟩ 11 "g1" { writeFail := true },   -- write fails: port 11 comes back
     .add mB ⟨none, true, false, false, true⟩ 11 "g1" {},                -- accepted (magnet)
     .add mA ⟨none, true, false, false, false⟩ 12 "g2" {},               -- no free port
-    .addTracker "x" "u9", .bump "x" ⟨5, 6, 0, 7⟩, .reopen true, .compactSwap true ]
+    .addTracker "x" "u9", .bump "x" ⟨5, 6, 0, 7⟩, .reopen true [], .compactSwap true ]
 
 example : (run (init 10 12) history).reg.map (·.id) = ["x"] := by decide
 example : (run (init 10 12) (history.take 8)).reg.length = 2 := by decide
@@ -132,6 +168,61 @@ example : (run (init 10 12) history).free = [11] := by decide
 example : ((run (init 10 12) history).reg.map (·.f)).map (fun f => (f.trackers, f.cnt.dl, f.started)) =
     [([["u1", "u2"], ["u3"], ["u9"]], 5, true)] := by decide
 example : ∀ op ∈ history, op.sequential = true := by decide
+example : tameRun (init 10 12) history = true := by decide
+
+/-! ### Records that fail to load -/
+
+/-- A tame history with failing loads: `x` (port 10) and the magnet `g1` (port 11) are added; at the
+restart the record of `x` does not load (and again at the next one); its port is taken by `y`;
+`CleanDatabase`; a last restart. -/
+private def failHistory : List Op :=
+  [ .add mA ⟨some "x", false, true, false, false⟩ 10 "" {},
+    .add mB ⟨none, true, false, false, true⟩ 11 "g1" {},
+    .bump "x" ⟨5, 6, 0, 7⟩,
+    .reopen true ["x"],                                              -- x fails to load: port 10 is free
+    .tamper "x" "19bytes",
+    .add mA ⟨some "y", true, false, false, false⟩ 10 "" {},          -- and is given to y
+    .reopen true ["x"],                                              -- x fails again
+    .clean,
+    .reopen false [] ]
+
+example : tameRun (init 10 12) failHistory = true := by decide
+example : let s := run (init 10 12) (failHistory.take 4)
+    s.regIds = ["g1"] ∧ s.free = [10] ∧ s.invalid = ["x"] ∧ s.deadIds = ["x"] ∧
+    (s.dead.map (·.2.cnt.dl)) = [5] := by decide
+example : let s := run (init 10 12) (failHistory.take 7)
+    s.regIds = ["g1", "y"] ∧ s.free = [] ∧ s.invalid = ["x"] ∧ (s.bucket.map (·.1)) = ["y", "g1", "x"] := by decide
+example : let s := run (init 10 12) failHistory
+    s.regIds = ["g1", "y"] ∧ s.invalid = [] ∧ (s.bucket.map (·.1)) = ["y", "g1"] := by decide
+example : restartEquiv true ["x"] (observe (run (init 10 12) (failHistory.take 3)))
+    (observe (run (init 10 12) (failHistory.take 4))) = true := by decide
+
+/-- **finding F07 (known): a record that failed to load loads later.**  The record of `x` (port 10)
+does not load at the first restart (a transient cause: `MaxPieces` lowered, storage unavailable); port
+10 is free and is given to `y`; at the next restart the record of `x` loads again —
+`loadExistingTorrent` deletes the port from `availablePorts` without looking whether it was there — and
+two live torrents own port 10.  The history is not tame, and port conservation fails. -/
+theorem reload_shares_port_counterexample :
+    let ops : List Op :=
+      [ .add mA ⟨some "x", true, false, false, false⟩ 10 "" {}, .reopen true ["x"],
+        .add mB ⟨some "y", true, false, false, false⟩ 10 "" {}, .reopen true [] ]
+    tameRun (init 10 12) ops = false ∧
+    (run (init 10 12) ops).reg.map (fun t => (t.id, t.f.port)) = [("x", 10), ("y", 10)] ∧
+    portConservation (observe (run (init 10 12) ops)) = false := by decide
+
+/-- **finding F08 (known): an explicit id that is listed as invalid.**  The record of `x` does not
+load; a new torrent is added with the explicit id `x` (the duplicate check looks at the registry
+only): `resumer.Write` replaces the record, but `x` stays in `invalidTorrentIDs`, and `CleanDatabase`
+deletes the record of the live torrent: the registry is no longer the database, and the next
+`updateStats` dereferences a nil bucket. -/
+theorem invalid_id_reuse_counterexample :
+    let ops : List Op :=
+      [ .add mA ⟨some "x", true, false, false, false⟩ 10 "" {}, .reopen true ["x"],
+        .add mB ⟨some "x", true, false, false, false⟩ 10 "" {}, .clean ]
+    tameRun (init 10 12) ops = false ∧
+    (run (init 10 12) ops).regIds = ["x"] ∧ (run (init 10 12) ops).bucket = [] ∧
+    registryEqDb (observe (run (init 10 12) ops)) = false ∧
+    updateStatsPanics (run (init 10 12) ops) = true := by decide
 
 /-! ### The pre-fix behaviour, kept as checked counterexamples -/
 
